@@ -9,7 +9,9 @@ import (
 )
 
 func DecodeBase64(raw []byte) ([]byte, error) {
-	ret := make([]byte, base64x.StdEncoding.DecodedLen(len(raw)))
+	// the decoder also writes the bytes of a trailing group of fewer than 4 characters
+	// (lengths that are not a multiple of 4 are not rejected): round the group count up
+	ret := make([]byte, base64x.StdEncoding.DecodedLen(len(raw)+3))
 	n, err := base64x.StdEncoding.Decode(ret, raw)
 	if err != nil {
 		return nil, err
